@@ -124,6 +124,8 @@ var stKinds = []string{
 	"rename", "rename", "rename", "mkdir", "remove", "lookup", "readdir", "readdirAttrs", "readdirAttrs", "subFile", "enter", "removeAllChildren", "bulkRemove", "removeAll", "createChildren", "lookupAll", "filter", "openCreate",
 	// added by the strengthening round:
 	"moveFixed", "moveFixed", "moveFixed", "renameOntoFixed", "link", "link", "mknod", "leafIO", "leafIO", "openWriteUnlink", "seedLazy", "seedLazy", "subList", "subLookup", "removeLazy",
+	// named attributes (NFS handle allocator only; see stTree.openAttrs):
+	"xattrSet", "xattrSet", "xattrSet", "xattrList", "xattrRemove",
 }
 
 func drawStOps(rt *rapid.T, n, nDirs int) []stOp {
@@ -216,11 +218,12 @@ type stTree struct {
 	renameMu sync.Mutex
 	parent   [4]int
 
-	mu     sync.Mutex
-	leaves []virtual.Leaf // every pool-backed file the harness got hold of
-	stats  map[string]int
-	lazy   []stLazySpec // specs handed out to seedLazy ops, in generated order
-	lazyAt atomic.Int32
+	mu       sync.Mutex
+	leaves   []virtual.Leaf      // every pool-backed file the harness got hold of
+	attrDirs []virtual.Directory // every named attribute directory OPENATTR handed out
+	stats    map[string]int
+	lazy     []stLazySpec // specs handed out to seedLazy ops, in generated order
+	lazyAt   atomic.Int32
 }
 
 func (t *stTree) count(what string) {
@@ -252,11 +255,19 @@ func newStTree(handles string) *stTree {
 	}
 	setter := func(requested virtual.AttributesMask, attributes *virtual.Attributes) {}
 	logger := &stLogger{}
-	t.files = virtual.NewHandleAllocatingFileAllocator(
-		virtual.NewPoolBackedFileAllocator(&stSafePool{}, logger, setter, virtual.NoNamedAttributesFactory), allocator)
+	clk := &vdClock{now: time.Unix(1000, 0)}
+	filePool := &stSafePool{}
 	t.links = virtual.NewHandleAllocatingSymlinkFactory(virtual.NewBaseSymlinkFactory(setter), allocator.New(), path.UNIXFormat)
+	// Named attributes wired as pkg/builder/virtual_build_directory.go
+	// InstallHooks() does, for both handle allocators.
+	namedAttributes := virtual.NewInMemoryNamedAttributesFactory(
+		virtual.NewHandleAllocatingFileAllocator(
+			virtual.NewPoolBackedFileAllocator(filePool, logger, setter, virtual.InNamedAttributeDirectoryNamedAttributesFactory), allocator),
+		t.links, logger, allocator, clk)
+	t.files = virtual.NewHandleAllocatingFileAllocator(
+		virtual.NewPoolBackedFileAllocator(filePool, logger, setter, namedAttributes), allocator)
 	t.root = virtual.NewInMemoryPrepopulatedDirectory(t.files, t.links, logger, allocator, sort.Sort,
-		func(string) bool { return false }, &vdClock{now: time.Unix(1000, 0)}, virtual.CaseSensitiveComponentNormalizer, setter, virtual.NoNamedAttributesFactory)
+		func(string) bool { return false }, clk, virtual.CaseSensitiveComponentNormalizer, setter, namedAttributes)
 	// root, root/a, root/b, root/a/c
 	a, _ := t.root.CreateAndEnterPrepopulatedDirectory(path.MustNewComponent("a"))
 	b, _ := t.root.CreateAndEnterPrepopulatedDirectory(path.MustNewComponent("b"))
@@ -294,6 +305,35 @@ func stChildDir(d virtual.PrepopulatedDirectory, name path.Component) virtual.Pr
 		return sub
 	}
 	return nil
+}
+
+// openAttrs sends OPENATTR to the child of d called name (a file or a
+// directory). Only under the NFS handle allocator: the FUSE front end has no
+// such call.
+func (t *stTree) openAttrs(ctx context.Context, d virtual.PrepopulatedDirectory, name path.Component, create bool) virtual.Directory {
+	if t.nfs == nil {
+		return nil
+	}
+	var attr virtual.Attributes
+	child, s := d.VirtualLookup(ctx, name, virtual.AttributesMaskInodeNumber, &attr)
+	if s != virtual.StatusOK {
+		return nil
+	}
+	var node virtual.Node
+	if sub, leaf := child.GetPair(); sub != nil {
+		node = sub
+	} else {
+		node = leaf
+	}
+	var out virtual.Attributes
+	attrs, s := node.VirtualOpenNamedAttributes(ctx, create, virtual.AttributesMaskInodeNumber|virtual.AttributesMaskChangeID, &out)
+	if s != virtual.StatusOK {
+		return nil
+	}
+	t.mu.Lock()
+	t.attrDirs = append(t.attrDirs, attrs)
+	t.mu.Unlock()
+	return attrs
 }
 
 func (t *stTree) apply(ctx context.Context, o stOp) {
@@ -476,6 +516,43 @@ func (t *stTree) apply(ctx context.Context, o stOp) {
 		// rmdir of a child: has to initialise a lazy child (fetcher may
 		// fail) while holding the parent's lock.
 		d.VirtualRemove(ctx, name, true, false)
+
+	// ---- named attributes: what setxattr / listxattr / removexattr amount
+	// to over NFSv4. The owner may lose its last link (or be removed) at any
+	// moment through the kinds above, which releases the attribute
+	// directory from inside the owner's Unlink() / markDeleted().
+	case "xattrSet":
+		if attrs := t.openAttrs(ctx, d, name, true); attrs != nil {
+			leaf, _, _, s := attrs.VirtualOpenChild(ctx, name2, virtual.ShareMaskWrite, (&virtual.Attributes{}).SetPermissions(virtual.PermissionsRead|virtual.PermissionsWrite), &virtual.OpenExistingOptions{Truncate: true}, 0, &attr)
+			if s == virtual.StatusOK {
+				t.noteLeaf(leaf)
+				leaf.VirtualWrite(ctx, []byte("value-"+o.Name), 0)
+				leaf.VirtualClose(virtual.ShareMaskWrite)
+				t.count("named_attribute_set")
+			}
+		}
+	case "xattrList":
+		if attrs := t.openAttrs(ctx, d, name, false); attrs != nil {
+			r := &stCollectingReporter{}
+			attrs.VirtualReadDir(ctx, 0, virtual.AttributesMaskInodeNumber|virtual.AttributesMaskChangeID, r)
+			if r.problem != "" {
+				panic("C13: " + r.problem)
+			}
+			if leaf, _, _, s := attrs.VirtualOpenChild(ctx, name2, virtual.ShareMaskRead, nil, &virtual.OpenExistingOptions{}, 0, &attr); s == virtual.StatusOK {
+				buf := make([]byte, 8)
+				leaf.VirtualRead(ctx, buf, 0)
+				leaf.VirtualClose(virtual.ShareMaskRead)
+			}
+			var out virtual.Attributes
+			d.VirtualLookup(ctx, name, virtual.AttributesMaskHasNamedAttributes, &out)
+			t.count("named_attribute_directory_listed")
+		}
+	case "xattrRemove":
+		if attrs := t.openAttrs(ctx, d, name, false); attrs != nil {
+			if _, s := attrs.VirtualRemove(ctx, name2, false, true); s == virtual.StatusOK {
+				t.count("named_attribute_removed")
+			}
+		}
 	}
 }
 
@@ -573,7 +650,7 @@ func TestC14DirectoryConcurrentStress(t *testing.T) {
 	if runtime.GOMAXPROCS(0) < 4 {
 		runtime.GOMAXPROCS(4)
 	}
-	rec := simkit.NewRecorder(t, "C14", "directory-concurrent-stress", "2-4 real goroutines each run a generated list of 10-40 operations on one shared tree root/{a,b,a/c} of the real in-memory directory (NFS or FUSE handle allocator): renames in both directions between the fixed directories, moves of the fixed directories a/b/c themselves into one another (serialised and cycle-checked the way the Linux VFS does), renames onto the name of a fixed directory (three locks), mkdir, remove, lookup, readdir (also with attributes that need every child's lock), CreateAndEnterPrepopulatedDirectory, RemoveAllChildren, Remove, RemoveAll, CreateChildren(overwrite), LookupAllChildren, FilterChildren with removal, VirtualLink, VirtualMknod, create/open + write/read/truncate/allocate/seek + unlink of files that other threads use, and lazily populated directories (seeded before and during the batch) whose InitialContentsFetcher fails its first 0-2 calls; interleavings are the Go scheduler's, not generated. Oracle: every batch terminates (a batch stuck for 60 s in which no thread completed an operation between two goroutine dumps 2 s apart and every unfinished thread is parked in sync.(*Mutex).Lock / sync.(*RWMutex) is a confirmed deadlock or leaked lock = violation; any other time-out, in particular threads that are still runnable, is inconclusive because progress cannot be ruled out), no call panics, one VirtualReadDir call never reports a name twice, afterwards every directory lock, every file lock and the NFS handle pool lock are free and LookupAllChildren / ReadDir agree on the whole tree. Built with the race detector when the check entry says race=True: a data race between two calls is reported by the runtime and fails the test. Renames that could move a directory into its own subtree are excluded (counted). Non-trivial: >=2 threads issued renames in opposite directions between the same two directories, or a removal of a directory another thread used, or >=2 threads moved fixed directories; distinct by script hash")
+	rec := simkit.NewRecorder(t, "C14", "directory-concurrent-stress", "2-4 real goroutines each run a generated list of 10-40 operations on one shared tree root/{a,b,a/c} of the real in-memory directory (NFS or FUSE handle allocator): renames in both directions between the fixed directories, moves of the fixed directories a/b/c themselves into one another (serialised and cycle-checked the way the Linux VFS does), renames onto the name of a fixed directory (three locks), mkdir, remove, lookup, readdir (also with attributes that need every child's lock), named attributes of files and directories (NFS handle allocator only: OPENATTR + create/write/list/read/remove attribute values, while other threads remove the owner, which releases the attribute directory from inside the removal), CreateAndEnterPrepopulatedDirectory, RemoveAllChildren, Remove, RemoveAll, CreateChildren(overwrite), LookupAllChildren, FilterChildren with removal, VirtualLink, VirtualMknod, create/open + write/read/truncate/allocate/seek + unlink of files that other threads use, and lazily populated directories (seeded before and during the batch) whose InitialContentsFetcher fails its first 0-2 calls; interleavings are the Go scheduler's, not generated. Oracle: every batch terminates (a batch stuck for 60 s in which no thread completed an operation between two goroutine dumps 2 s apart and every unfinished thread is parked in sync.(*Mutex).Lock / sync.(*RWMutex) is a confirmed deadlock or leaked lock = violation; any other time-out, in particular threads that are still runnable, is inconclusive because progress cannot be ruled out), no call panics, one VirtualReadDir call never reports a name twice, afterwards every directory lock, every file lock and the NFS handle pool lock are free and LookupAllChildren / ReadDir agree on the whole tree. Built with the race detector when the check entry says race=True: a data race between two calls is reported by the runtime and fails the test. Renames that could move a directory into its own subtree are excluded (counted). Non-trivial: >=2 threads issued renames in opposite directions between the same two directories, or a removal of a directory another thread used, or >=2 threads moved fixed directories; distinct by script hash")
 	ctx := context.Background()
 	rapid.Check(t, func(rt *rapid.T) {
 		sc := stCase{Handles: rapid.SampledFrom([]string{"nfs", "fuse"}).Draw(rt, "handles")}
@@ -670,6 +747,11 @@ func TestC14DirectoryConcurrentStress(t *testing.T) {
 		if tree.nfs != nil && !tree.nfs.VerifNFSHandlePoolLockIsFree() {
 			rt.Fatalf("C14: the NFS handle pool lock is still held after all concurrent calls returned; case=%+v", sc)
 		}
+		for i, d := range tree.attrDirs {
+			if free, known := virtual.VerifDirectoryLockIsFree(d); known && !free {
+				rt.Fatalf("C14: lock of named attribute directory #%d is still held after all concurrent calls returned; case=%+v", i, sc)
+			}
+		}
 		for i, l := range tree.leaves {
 			if free, known := virtual.VerifLeafLockIsFree(l); known && !free {
 				rt.Fatalf("C14: lock of pool-backed file #%d is still held after all concurrent calls returned; case=%+v", i, sc)
@@ -731,6 +813,7 @@ func TestC14DirectoryConcurrentStress(t *testing.T) {
 		removal := false
 		movers := map[int]bool{}
 		lazyOps := false
+		xattrOps := false
 		for ti, ops := range scripts {
 			for _, o := range ops {
 				if o.Kind == "rename" && o.Dir != o.Dir2 {
@@ -748,6 +831,9 @@ func TestC14DirectoryConcurrentStress(t *testing.T) {
 				if o.Kind == "seedLazy" || o.Kind == "subList" || o.Kind == "removeLazy" {
 					lazyOps = true
 				}
+				if strings.HasPrefix(o.Kind, "xattr") && sc.Handles == "nfs" {
+					xattrOps = true
+				}
 			}
 		}
 		labels := []string{"handles_" + sc.Handles}
@@ -762,6 +848,9 @@ func TestC14DirectoryConcurrentStress(t *testing.T) {
 		}
 		if lazyOps || len(sc.Seeded) > 0 {
 			labels = append(labels, "lazy_directories_in_play")
+		}
+		if xattrOps {
+			labels = append(labels, "named_attributes_in_play")
 		}
 		// What actually happened (schedule dependent, labels only).
 		for _, k := range vdSortedKeys(tree.stats) {
